@@ -95,6 +95,7 @@ func Generate(r *rand.Rand, profile string, concurrent bool, avoid map[string]bo
 		case x < 68:
 			o.K = OpProbe
 			o.A = r.IntN(4)
+			o.Task = r.IntN(4)
 		case x < 74:
 			o.K = OpCancel
 			if avoid["recv_ctx_end"] && r.IntN(4) > 0 {
@@ -230,6 +231,21 @@ func (s *sim) vio(prop, rule, facts, msg string) {
 
 type ctxKey string
 
+var errCreation = errors.New("stream creation failed")
+
+// cancelCtx cancels the call's context from a task of its own (the scheduler
+// goroutine is deaf to synchronisation events and must not touch the context).
+//
+//go:norace
+func (s *sim) cancelCtx() {
+	if s.k.Aborting() {
+		s.cancel()
+		return
+	}
+	s.hint()
+	s.k.Spawn("cancel", 0, &taskTag{id: 9}, func() { s.cancel() })
+}
+
 //go:norace
 func (s *sim) streamer(ctx context.Context, desc *grpc.StreamDesc, cc *grpc.ClientConn, method string, opts ...grpc.CallOption) (grpc.ClientStream, error) {
 	s.k.Yield("fake:streamer")
@@ -247,7 +263,7 @@ func (s *sim) streamer(ctx context.Context, desc *grpc.StreamDesc, cc *grpc.Clie
 	}
 	if n <= s.plan.Fails {
 		s.nFails++
-		return nil, fmt.Errorf("creation %d failed", n)
+		return nil, errCreation
 	}
 	s.created++
 	return &fakeCS{s: s, ctx: ctx}, nil
@@ -368,7 +384,20 @@ func (s *sim) exec(o Op) {
 		s.op("recv", 2+o.Task%2, m, func() error { return s.cs.RecvMsg(m) })
 		s.settle(o)
 	case OpProbe:
-		if s.created == 0 && !s.plan.EarlyProbe {
+		// Which application goroutine probes: one of the sender/receiver goroutines.
+		// Unless early probes are allowed, only a goroutine that has already
+		// completed a send or receive on the stream (grpc: "should not be called
+		// until after Header or RecvMsg has returned"): that earlier call ordered it
+		// after stream creation. A probe from a goroutine with no ordering to the
+		// creation is application misuse, not the library's race.
+		pg := o.Task % 4
+		ordered := false
+		for _, po := range s.pending {
+			if po.task == pg && po.returned && po.err == nil && (po.kind == "send" || po.kind == "recv") {
+				ordered = true
+			}
+		}
+		if (s.created == 0 || !ordered) && !s.plan.EarlyProbe {
 			return
 		}
 		if s.created == 0 {
@@ -376,7 +405,7 @@ func (s *sim) exec(o Op) {
 		}
 		s.res.Count("op:probe", 1)
 		name := []string{"Header", "Trailer", "CloseSend", "Context"}[o.A%4]
-		s.op(name, 4, nil, func() error {
+		s.op(name, pg, nil, func() error {
 			switch o.A % 4 {
 			case 0:
 				_, err := s.cs.Header()
@@ -393,7 +422,7 @@ func (s *sim) exec(o Op) {
 		s.settle(o)
 	case OpCancel:
 		if !s.ctxEnded {
-			s.cancel()
+			s.cancelCtx()
 			s.ctxEnded = true
 			s.k.Bump()
 			s.res.Count("fault:ctx_cancel", 1)
@@ -401,7 +430,7 @@ func (s *sim) exec(o Op) {
 		s.settle(o)
 	case OpAdvance:
 		s.k.Advance(time.Duration(o.A) * time.Millisecond)
-		if s.ctx.Err() != nil && !s.ctxEnded {
+		if s.plan.Deadline > 0 && s.k.Elapsed() >= time.Duration(s.plan.Deadline)*time.Millisecond && !s.ctxEnded {
 			s.ctxEnded = true
 			s.res.Count("fault:ctx_deadline", 1)
 		}
@@ -636,7 +665,7 @@ func (s *sim) heal() {
 	}
 	// bounded liveness: after cancellation no receiver may remain blocked
 	if !s.ctxEnded {
-		s.cancel()
+		s.cancelCtx()
 		s.ctxEnded = true
 		s.k.Bump()
 		s.k.Quiesce()
@@ -649,13 +678,13 @@ func (s *sim) heal() {
 //go:norace
 func (s *sim) finish() {
 	k := s.k
-	if s.cancel != nil {
-		s.cancel()
-	}
 	if s.blocked {
 		k.Set(&s.unblock)
 	}
 	k.Shutdown()
+	if s.cancel != nil {
+		s.cancel()
+	}
 	s.res.Steps = int(k.Steps())
 	s.res.SimNanos = int64(k.Elapsed())
 	s.res.Fingerprint = k.Fingerprint
